@@ -100,6 +100,10 @@ ScenC15(u) == {Plain(<<dc>>) : dc \in C15Docs(0)}
                         IF x = p THEN Tc(Ids[1][x], how, 80, 0, None, "stdout", "combined", "match", None, FALSE, None)
                         ELSE CramKind(names[x], Ids[1][x])])>>) :
                      p \in 0..3, how \in {"exit", "exitscript"}, names \in [1..3 -> {"pass", "failout"}]}
+           \* the test case that exits with the skip code (or a passing / failing one before it) has damaged the carrier's state
+           \* file: the exit code of the command is still what counts
+           \cup {Plain(<<Md(<<[Kind(n1, "d1t1") EXCEPT !.sab = s1], [Kind("skip80", "d1t2") EXCEPT !.sab = ~s1], Kind("pass", "d1t3")>>)>>) :
+                     n1 \in {"pass", "failout"}, s1 \in BOOLEAN}
            \* a test case returns the skip code WITHOUT leaving the shared script, a later one ends the script with another
            \* code (`exit 3`): the skip comes first, the document is skipped - not an execution error
            \cup {Plain(<<Cram(pre \o <<Tc("d1t2", "exit", 80, 0, None, "stdout", "combined", "match", None, FALSE, None)>> \o mid
